@@ -220,6 +220,10 @@ def contract(cls):
              ghost={"allocates": True, "no_compare": True, "split_cases": 1, "single_exit": True, "heavy": True,
                     # quick tier: all three states with a successor link (and, for sets, all without)
                     "quick_cases": [26] if mapping else [26, 13],
+                    # thorough tier: sets - all 27 shape combinations; mappings - every shape of the original state
+                    # with the committed and new states of one shape each (9 of 27; the decoding of a state does
+                    # not depend on the shapes of the other two)
+                    **({"thorough_cases": [0, 4, 8, 9, 13, 17, 18, 22, 26]} if mapping else {}),
                     "uses": {"*:cursor_*": CURSOR_FACTS, "call:_SetIteration.advance:requires:*": CURSOR_FACTS,
                              "*:distinct": CURSOR_FACTS, "*:sources": CURSOR_FACTS, "*:value_sources": CURSOR_FACTS,
                              "*:preserve:front_*": FRONT_FACTS, "*:preserve:sub_*": FRONT_FACTS, "*:preserve:rest_*": FRONT_FACTS,
